@@ -47,7 +47,7 @@ def table(ids, with_first):
             now = 'undecided in ' + ', '.join(und)
         else:
             now = '**not reported** (' + m.get('not_reported_reason', 'value-level, see text') + ')'
-        row = [sid, short(files, 60), short(m.get('summary', ''), 210), short(m.get('needs_to_manifest', ''), 150)]
+        row = [sid, short(files, 60), short(m.get("summary", ""), 170), short(m.get("needs_to_manifest", ""), 120)]
         if with_first:
             f = first.get(sid, [])
             row.append(', '.join(f) if f else '—')
